@@ -59,6 +59,8 @@ def run_job(job, w):
         if r["watchdog_fired"]:
             w.count("watchdog_fired")
             rec["stuck"] = {"scenario": sc, "diag": r.get("stuck_diag"),
+                            "ty": ({"which": job.get("ty_which", "emission"), "seed": job.get("ty_seed", 0)}
+                                   if job.get("targeted_yield", True) else None),
                             "observable_errors": [{k: e[k] for k in ("seq", "comp", "which", "err")} for e in ev
                                                   if e["kind"] == "observable.error"]}
             w.records.append(rec)
@@ -111,25 +113,46 @@ def classify(v, nodes, script, events):
     return None
 
 
-def confirm_stuck_at_k1(scenario, attempts=2, cap_s=300.0):
-    """Re-run a stuck-candidate with unmodified timers (K=1), no jitter, no storm."""
-    sc = dict(scenario)
-    sc.update({"jitter_p": 0.0, "storm": False, "watchdog_s": cap_s})
+def confirm_stuck_at_k1(candidates, cap_s=200.0, plain_attempts=1, ty_attempts=8):
+    """Re-run stuck-candidates with unmodified timers (K=1), no jitter, no storm; all re-runs of all candidates run
+    in parallel.  If the run that got stuck had yield injection on (ty = {"which", "seed"}), some of the K=1 re-runs
+    also use it (several injection seeds): a pause of a few milliseconds at a line boundary is something a pre-empted
+    thread experiences with unmodified timers too, so a hang reproduced this way is not an artefact of time dilation.
+    -> list of verdicts (True: reproduced, False: every re-run terminated, None: undecided)"""
     d = vlib.mkscratch("k1")
-    p = os.path.join(d, "sc.json")
-    with open(p, "w") as f:
-        json.dump(sc, f)
-    for _ in range(attempts):
+    runs = []          # (candidate index, Popen, output path)
+    for ci, cand in enumerate(candidates):
+        sc = dict(cand["scenario"])
+        sc.update({"jitter_p": 0.0, "storm": False, "watchdog_s": cap_s, "linger_v": 0.0})
+        p = os.path.join(d, "sc%d.json" % ci)
+        with open(p, "w") as f:
+            json.dump(sc, f)
+        envs = [None] * plain_attempts
+        ty = cand.get("ty")
+        if ty and ty.get("which"):
+            envs += [{"VERIF_TY": "%s:%d" % (ty["which"], int(ty.get("seed", 0)) * 100 + i)} for i in range(ty_attempts)]
+        for i, extra in enumerate(envs):
+            out_p = os.path.join(d, "out%d-%d.txt" % (ci, i))
+            pr = subprocess.Popen([vlib.PYTHON, "-m", "rt.debug", p, "1"], cwd=vlib.VERIF_ROOT,
+                                  env=vlib.child_env(extra), stdout=open(out_p, "w"), stderr=subprocess.DEVNULL)
+            runs.append((ci, pr, out_p))
+    t_end = time.time() + cap_s + 240
+    per = {ci: [] for ci in range(len(candidates))}
+    for ci, pr, out_p in runs:
         try:
-            out = subprocess.run([vlib.PYTHON, "-m", "rt.debug", p, "1"], cwd=vlib.VERIF_ROOT, env=vlib.child_env(),
-                                 capture_output=True, text=True, timeout=cap_s + 120).stdout
+            pr.wait(timeout=max(1.0, t_end - time.time()))
         except subprocess.TimeoutExpired:
-            return None
-        if "watchdog True" in out:
-            return True
-        if "watchdog False" in out:
-            return False
-    return None
+            pr.kill()
+        try:
+            out = open(out_p).read()
+        except OSError:
+            out = ""
+        per[ci].append(True if "watchdog True" in out else (False if "watchdog False" in out else None))
+    verdicts = []
+    for ci in range(len(candidates)):
+        v = per[ci]
+        verdicts.append(True if any(x is True for x in v) else (False if v and all(x is False for x in v) else None))
+    return verdicts
 
 
 def _run_job_outer(job, w):
@@ -246,6 +269,17 @@ def main():
     thorough = c.tier == "thorough"
     K = float(os.environ.get("VERIF_K", "20"))
     rp = vlib.load_replay(sys.argv)
+    if rp is not None and "diag" in rp["witness"]:
+        # witness of a run that did not terminate: re-run it at K=1 (with the yield injection it was found under)
+        wt = rp["witness"]
+        v = confirm_stuck_at_k1([{"scenario": wt["scenario"], "ty": wt.get("ty")}])[0]
+        c.evaluated()
+        c.count("terminated_runs", 0 if v else 1)
+        if v is True:
+            c.violation("stage loop does not terminate (reproduced at K=1 with unmodified timers)", wt, finding_key=None)
+        elif v is None:
+            c.note_inconclusive("the K=1 re-runs of the stuck witness were undecided")
+        sys.exit(c.finish())
     if rp is not None:
         sc = rp["witness"]["scenario"]
         vlib.fanout("checks.C02", [{"K": K, "scenarios": [dict(sc, pseed=sc["pseed"] + i) for i in range(3)]}], c, 600)
@@ -341,11 +375,12 @@ def main():
                         {"scenario": s["scenario"], "diag": s["diag"], "observable_errors": errs},
                         finding_key=None)
     c.count("stuck_runs_explained_by_terminated_observable", len(explained))
-    for s in stuck[:3]:
-        verdict = confirm_stuck_at_k1(s["scenario"])
+    verdicts = confirm_stuck_at_k1(stuck[:3]) if stuck else []
+    c.count("stuck_runs_rerun_at_K1", len(verdicts))
+    for s, verdict in zip(stuck[:3], verdicts):
         if verdict is True:
             c.violation("stage loop does not terminate (reproduced at K=1 with unmodified timers): %s" % json.dumps(
-                s["diag"].get("components", {}))[:300], {"scenario": s["scenario"], "diag": s["diag"]},
+                s["diag"].get("components", {}))[:300], {"scenario": s["scenario"], "diag": s["diag"], "ty": s.get("ty")},
                 finding_key=None)
         else:
             os.makedirs(os.path.join(vlib.VERIF_ROOT, "replay", PROP), exist_ok=True)
